@@ -29,6 +29,8 @@ def creds (s : S) : Option Bytes × Option Bytes := (s.l.token, s.l.key)
 @[simp] theorem creds_dropConnect (s : S) : creds (dropConnect s) = creds s := rfl
 @[simp] theorem creds_setVersion3 (s : S) : creds (setVersion3 s) = creds s := rfl
 @[simp] theorem creds_setLifetime (s : S) (m : Option Nat) : creds (setLifetime s m) = creds s := rfl
+@[simp] theorem creds_armCancel (s : S) (ms : Nat) : creds (armCancel s ms) = creds s := rfl
+@[simp] theorem creds_disarmCancel (s : S) : creds (disarmCancel s) = creds s := rfl
 
 @[simp] theorem creds_awaitQueue (fuel : Nat) (s : S) (d : Nat) : creds (awaitQueue fuel s d).2 = creds s := by
   induction fuel generalizing s with
@@ -38,8 +40,10 @@ def creds (s : S) : Option Bytes × Option Bytes := (s.l.token, s.l.key)
     split
     · simp
     · split
-      · rfl
-      · rw [ih, creds_deliverDue]
+      · split <;> rfl
+      · split
+        · rfl
+        · rw [ih, creds_deliverDue]
 
 theorem creds_of_awaitQueue {fuel : Nat} {s s' : S} {d : Nat} {r : ReadRes} (h : awaitQueue fuel s d = (r, s')) :
     creds s' = creds s := by
@@ -110,6 +114,10 @@ theorem creds_protoAuthenticate {p : Params} {rx : Reactions} {s s' : S} {token 
       · rename_i s1 hw
         have h1 : creds s1 = creds s := by rw [creds_opWriteHS hw, creds_flush]
         split at h
+        · rename_i s2 hq
+          simp only [Prod.mk.injEq] at h
+          obtain ⟨_, rfl⟩ := h
+          rw [creds_of_awaitQueue hq, h1]
         · rename_i s2 hq
           simp only [Prod.mk.injEq] at h
           obtain ⟨_, rfl⟩ := h
@@ -198,6 +206,11 @@ theorem creds_sendLoop {p : Params} {rx : Reactions} {frame : Bytes} (n : Nat) {
         · simp only [Prod.mk.injEq] at h
           obtain ⟨_, rfl⟩ := h
           rw [creds_opDisconnect, h2, h1]
+      · rename_i s2 hq
+        have h2 := creds_of_awaitQueue hq
+        simp only [Prod.mk.injEq] at h
+        obtain ⟨_, rfl⟩ := h
+        rw [creds_opDisconnect, h2, h1]
       · rename_i raw s2 hq
         have h2 := creds_of_awaitQueue hq
         split at h
